@@ -8,7 +8,11 @@ Declaration-level model of the PEP 484 stub generator and of the runtime module 
 * `mapTy` = `map_stone_type_to_python_type` (stone/backends/python_type_mapping.py), same branch
   order, with the `override_dict` keys as flags and the stub backend's callbacks inlined
   (`_get_pep_484_type_mapping_callbacks`). It returns the type expression *and* the imports the
-  callbacks register with the `ImportTracker` while the expression is built.
+  callbacks register with the `ImportTracker` while the expression is built. The callback for
+  user-defined types (since the repair of C15-stub-indirect-namespace-import) registers the import of
+  the namespace module of a class of another namespace unless `get_imported_namespaces` has it; the
+  model records the reference (`Reg.nsRef`) and applies that test where the placeholder is filled
+  (`placeholderImports`), where the import list of the namespace is at hand: same statements.
 * `stubNs` = `PythonTypeStubsBackend._generate_base_namespace_module`: what the `.pyi` of one
   namespace declares, as data (classes with base / `__init__` parameters / members with annotation
   trees, module-level names, and the import list = fixed imports + namespace imports + the
@@ -260,6 +264,9 @@ def TExpr.names : TExpr → List String
 inductive Reg where
   | typing (name : String)
   | adhoc (stmt : String)
+  /-- `upon_encountering_user_defined` met a class of another namespace: it registers the statement
+  `from <package> import <fmt_namespace(ns)>` unless the namespace is among the imported ones -/
+  | nsRef (ns : String)
   deriving Repr, DecidableEq, Inhabited
 
 /-- which keys `override_dict` has -/
@@ -269,6 +276,7 @@ structure Overrides where
   list : Bool
   map : Bool
   nullable : Bool
+  user : Bool
   deriving Repr, DecidableEq
 
 def hasCallback (k : String) : Bool := Tables.stubOverrideCallbacks.any (·.1 == k)
@@ -276,9 +284,9 @@ def hasCallback (k : String) : Bool := Tables.stubOverrideCallbacks.any (·.1 ==
 /-- `callback_dict` of `_get_pep_484_type_mapping_callbacks` -/
 def stubOverrides : Overrides :=
   { string := hasCallback "String", timestamp := hasCallback "Timestamp", list := hasCallback "List",
-    map := hasCallback "Map", nullable := hasCallback "Nullable" }
+    map := hasCallback "Map", nullable := hasCallback "Nullable", user := hasCallback "UserDefined" }
 
-def noOverrides : Overrides := ⟨false, false, false, false, false⟩
+def noOverrides : Overrides := ⟨false, false, false, false, false, false⟩
 
 def tDatetime : TExpr := .attr (.name "datetime") "datetime"
 
@@ -296,8 +304,9 @@ def mapTy (N : Naming) (ov : Overrides) (ns : String) : StoneTy → TExpr × Lis
     if ov.timestamp then (tDatetime, [.adhoc "import datetime"]) else (tDatetime, [])
   | .alias _ _ t => mapTy N ov ns t
   | .user tns name =>
+    -- the callback registers, then calls the mapping again WITHOUT overrides
     let cls := fmtClass N name
-    if tns != ns then (.attr (.name (fmtNamespace tns)) cls, []) else (.name cls, [])
+    if tns != ns then (.attr (.name (fmtNamespace tns)) cls, if ov.user then [.nsRef tns] else []) else (.name cls, [])
   | .list t =>
     let r := mapTy N ov ns t
     if ov.list then (.sub (.name "List") r.1, .typing "List" :: r.2) else (.docList r.1, r.2)
@@ -566,11 +575,17 @@ def typingNames (regs : List Reg) : List String :=
   dedup (regs.filterMap fun r => match r with | .typing n => some n | _ => none)
 def adhocStmts (regs : List Reg) : List String :=
   dedup (regs.filterMap fun r => match r with | .adhoc s => some s | _ => none)
+/-- the namespaces whose import the user-defined callback registers: referenced, and not among
+`get_imported_namespaces(consider_annotation_types=True)` (`imps`) -/
+def extraNamespaces (imps : List String) (regs : List Reg) : List String :=
+  dedup (regs.filterMap fun r => match r with | .nsRef n => if n ∈ imps then none else some n | _ => none)
 
 /-- `_generate_imports_needed_for_typing`: the text stored for the placeholder
-`imports_needed_for_typing` = everything registered since `import_tracker.clear()` -/
-def placeholderImports (regs : List Reg) : List Import :=
+`imports_needed_for_typing` = everything registered since `import_tracker.clear()`. The registered
+statements are emitted sorted; the order of imports is not part of this model (C12's subject). -/
+def placeholderImports (imps : List String) (regs : List Reg) : List Import :=
   (if (typingNames regs).isEmpty then [] else [.typing (typingNames regs)]) ++
+  (extraNamespaces imps regs).map (fun n => Import.ns (fmtNamespace n)) ++
   (adhocStmts regs).map .adhoc
 
 /-- `_generate_typevars` -/
@@ -594,7 +609,7 @@ def stubNs (N : Naming) (api : Api) (ns : Namespace) : Except String ModDecl :=
   | none =>
     let b := stubBody N api ns
     .ok { file := fmtNamespace ns.name ++ ".pyi",
-          imports := placeholderImports b.2 ++
+          imports := placeholderImports ns.imports b.2 ++
             [.lib "stone_base" "bb", .lib "stone_validators" "bv"] ++
             ns.imports.map (fun n => Import.ns (fmtNamespace n)),
           items := b.1 }
@@ -795,10 +810,18 @@ def annotatedTypes (api : Api) (ns : Namespace) : List StoneTy :=
   ns.annoTypes.flatMap (fun a => a.params.map (·.ty))
 
 /-- every user type the annotations of `ns` can mention (aliases resolved) is a class of `ns` or
-lives in a namespace `ns` imports -/
+lives in a namespace `ns` imports. No longer a hypothesis of any theorem (since the repair of
+C15-stub-indirect-namespace-import the stub imports the other namespaces itself); recorded by the
+harness. -/
 def refsCovered (api : Api) (ns : Namespace) : Bool :=
   (annotatedTypes api ns).all fun t => (resolvedUsers t).all fun k =>
     if k.1 == ns.name then ns.types.any (·.name == k.2) else ns.imports.contains k.1
+
+/-- every user type of `ns` ITSELF that its annotations can mention (aliases resolved, inherited
+fields included) is one of its classes: a reference into a namespace is to something it defines -/
+def ownRefsDefined (api : Api) (ns : Namespace) : Bool :=
+  (annotatedTypes api ns).all fun t => (resolvedUsers t).all fun k =>
+    k.1 != ns.name || ns.types.any (·.name == k.2)
 
 /-- the same for what the namespace's own text mentions directly (own fields, own tags, parameters):
 this is what the frontend's import bookkeeping guarantees -/
